@@ -64,6 +64,7 @@ partial def loop (h : IO.FS.Stream) : IO Unit := do
   match Json.parse line.trimAscii.toString >>= handle with
   | .error e => IO.println (Json.mkObj [("bad-line", Json.str e)]).compress
   | .ok r => IO.println r.compress
+  (← IO.getStdout).flush
   loop h
 
 def run : IO Unit := do loop (← IO.getStdin)
